@@ -85,7 +85,7 @@ Definition enumerated_sites : list (string * string * N) := [
   ("wbxml_tree.c", "wbxml_tree_add_elt", 2);
   ("wbxml_tree.c", "wbxml_tree_add_xml_elt", 3);
   ("wbxml_tree.c", "wbxml_tree_create", 1);
-  ("wbxml_tree.c", "wbxml_tree_from_wbxml", 2);
+  ("wbxml_tree.c", "wbxml_tree_from_wbxml_embedded", 2);
   ("wbxml_tree.c", "wbxml_tree_from_xml", 1);
   ("wbxml_tree.c", "wbxml_tree_node_add_xml_attr", 5);
   ("wbxml_tree.c", "wbxml_tree_node_create_cdata", 2);
